@@ -265,6 +265,7 @@ func cmdRun(args []string) int {
 	concrete := map[string]uint64{}
 	workers := runtime.NumCPU()
 	var maxPaths int64
+	xvalN := 0
 	module := "harness"
 	for _, a := range args[1:] {
 		if strings.HasPrefix(a, "-w=") {
@@ -273,6 +274,10 @@ func cmdRun(args []string) int {
 		}
 		if strings.HasPrefix(a, "-max=") {
 			maxPaths, _ = strconv.ParseInt(a[5:], 10, 64)
+			continue
+		}
+		if strings.HasPrefix(a, "-xval=") {
+			xvalN, _ = strconv.Atoi(a[6:])
 			continue
 		}
 		if strings.HasPrefix(a, "-mod=") {
@@ -306,6 +311,21 @@ func cmdRun(args []string) int {
 		return 2
 	}
 	kf, _ := loadKnownFindings()
+	if xvalN > 0 {
+		bin, err := buildReplayBinary(filepath.Join(verifDir(), module))
+		if err != nil {
+			fmt.Fprintln(os.Stderr, err)
+			return 2
+		}
+		defer os.Remove(bin)
+		h := harnessSpec{Name: name, Module: module}
+		ok, bad := xval(ld, entry, &h, params, bin, xvalN, seedOf(), kf)
+		fmt.Printf("xval: %d/%d identical\n", ok, xvalN)
+		for _, b := range bad {
+			fmt.Println("MISMATCH", b)
+		}
+		return 0
+	}
 	st := vm.Explore(vm.Config{Machine: ld.m, Entry: entry, Harness: name, Workers: workers, Params: params, MaxPaths: maxPaths, KnownOpen: kf.openMap(), Concrete: concrete})
 	printStats(st, ld.loadS)
 	for i, f := range st.Failures {
